@@ -462,7 +462,135 @@ func ruleR33() *Rule {
 					fmt.Sprintf("every successful return of %s hands back the accumulator %s as accumulated so far (result %d is computed from the parameter)", sp.Fn, sp.Param, sp.Result),
 					"a successful path returns a value that does not derive from the accumulator passed in: the caller's running offset/buffer restarts", sp.Props, w)
 			}
+			r33Discovered(c)
 		},
+	}
+}
+
+// r33Discovered: numeric accumulators found from the call sites. A call `x, err = f(..., x, ...)` in which
+// an integer argument is a loop-carried variable and an integer result of the same call flows back into
+// that very variable threads a running number (an offset, the next document number) through f: every
+// successful return of f must then compute that result from that parameter (`return 0, nil` on an early
+// exit restarts the caller's numbering — seeded change C05j).
+func r33Discovered(c *RuleCtx) {
+	isInt := func(t types.Type) bool {
+		b, ok := t.Underlying().(*types.Basic)
+		return ok && b.Info()&types.IsInteger != 0
+	}
+	type key struct {
+		fn   *ssa.Function
+		i, j int
+	}
+	found := map[key]ssa.CallInstruction{}
+	flowsBack := func(res ssa.Value, arg ssa.Value) bool {
+		// the loop-carried variable as a phi
+		if ph, ok := arg.(*ssa.Phi); ok {
+			seen := map[ssa.Value]bool{}
+			var walk func(v ssa.Value, d int) bool
+			walk = func(v ssa.Value, d int) bool {
+				if d > 4 || seen[v] || v.Referrers() == nil {
+					return false
+				}
+				seen[v] = true
+				for _, r := range *v.Referrers() {
+					if p2, ok := r.(*ssa.Phi); ok {
+						if p2 == ph || walk(p2, d+1) {
+							return true
+						}
+					}
+				}
+				return false
+			}
+			return walk(res, 0)
+		}
+		// ... or as a local cell
+		if cell := localCellOfLoad(arg); cell != nil && res.Referrers() != nil {
+			for _, r := range *res.Referrers() {
+				if st, ok := r.(*ssa.Store); ok && st.Val == res && st.Addr == ssa.Value(cell) {
+					return true
+				}
+			}
+		}
+		return false
+	}
+	for _, fn := range c.p.ZapFuncs {
+		for _, cs := range callSites(fn) {
+			call, ok := cs.(*ssa.Call)
+			if !ok {
+				continue
+			}
+			g := staticCallee(cs)
+			if g == nil || !c.p.InZap(g) || len(g.Blocks) == 0 || len(g.Params) != len(call.Call.Args) {
+				continue
+			}
+			res := g.Signature.Results()
+			for j := 0; j < res.Len(); j++ {
+				if !isInt(res.At(j).Type()) {
+					continue
+				}
+				rv := extractOf(call, j)
+				if rv == nil {
+					continue
+				}
+				for i, a := range call.Call.Args {
+					if !isInt(a.Type()) || !types.Identical(a.Type(), res.At(j).Type()) {
+						continue
+					}
+					if flowsBack(rv, a) {
+						found[key{g, i, j}] = cs
+					}
+				}
+			}
+		}
+	}
+	var keys []key
+	for k := range found {
+		keys = append(keys, k)
+	}
+	sort.Slice(keys, func(a, b int) bool {
+		if keys[a].fn.String() != keys[b].fn.String() {
+			return keys[a].fn.String() < keys[b].fn.String()
+		}
+		if keys[a].i != keys[b].i {
+			return keys[a].i < keys[b].i
+		}
+		return keys[a].j < keys[b].j
+	})
+	for _, k := range keys {
+		// the tabled ones are judged above
+		tabled := false
+		for _, sp := range threadTable {
+			if namedFn(k.fn, sp.Fn) && k.j == sp.Result {
+				tabled = true
+			}
+		}
+		if tabled {
+			continue
+		}
+		prm := k.fn.Params[k.i]
+		okc, n := true, 0
+		var w []string
+		for _, ret := range returnsOf(k.fn) {
+			if _, ns := errorOfReturn(ret); ns == nonNil {
+				continue
+			}
+			if k.j >= len(ret.Results) {
+				continue
+			}
+			n++
+			v := returnedValue(ret, k.j)
+			if !dependsOn(v, prm, 0, map[ssa.Value]bool{}) {
+				okc = false
+				w = append(w, "returns "+v.Name()+" ("+v.String()+"), which is not computed from "+prm.Name()+": "+describeInstr(c.p, ret))
+			}
+		}
+		props := []string{"C05"}
+		if strings.Contains(k.fn.String(), "nverted") || strings.Contains(k.fn.String(), "TermFreq") {
+			props = []string{"C06"}
+		}
+		c.add(statusOf(okc && n > 0), fmt.Sprintf("%s/%s->result%d", funcShortName(k.fn), canonParamName(prm), k.j), c.fpos(k.fn),
+			fmt.Sprintf("every successful return of %s hands the running number %s back as advanced so far (result %d is computed from the parameter): its caller threads it through the call (%s)", funcShortName(k.fn), prm.Name(), k.j, c.pos(found[k])),
+			"a successful path returns a value that does not derive from the running number passed in: the caller's numbering restarts", props, w)
 	}
 }
 
